@@ -14,8 +14,12 @@ import (
 	"sort"
 	"strings"
 	"testing"
+	"testing/synctest"
 
+	"github.com/libp2p/go-libp2p/core/event"
+	"github.com/libp2p/go-libp2p/core/network"
 	"github.com/libp2p/go-libp2p/internal/verifh"
+	"github.com/libp2p/go-libp2p/p2p/host/eventbus"
 	ma "github.com/multiformats/go-multiaddr"
 	manet "github.com/multiformats/go-multiaddr/net"
 )
@@ -190,10 +194,22 @@ func c17Build(t testing.TB) *c17Tables {
 
 // ---- a script: concrete multiaddrs + operations ------------------------------
 
+// c17Conn is a network.Conn of which only the three methods the manager calls
+// exist (anything else would panic on the nil embedded interface)
 type c17Conn struct {
+	network.Conn
 	local, remote ma.Multiaddr
 	closed        bool
 }
+
+// c17Net is a network.Network that only records the notifiee Start registers
+type c17Net struct {
+	network.Network
+	nf network.Notifiee
+}
+
+func (n *c17Net) Notify(f network.Notifiee)     { n.nf = f }
+func (n *c17Net) StopNotify(f network.Notifiee) { n.nf = nil }
 
 func (c *c17Conn) LocalMultiaddr() ma.Multiaddr  { return c.local }
 func (c *c17Conn) RemoteMultiaddr() ma.Multiaddr { return c.remote }
@@ -265,7 +281,21 @@ func c17RemoteAddr(s c17ConnSpec) ma.Multiaddr {
 }
 
 // c17Exec runs the script on a fresh real Manager and returns the case line.
-func c17Exec(t testing.TB, out *verifh.Out, sc *c17Script) []int64 {
+// direct mode: maybeRecordObservation / removeConn are called directly.
+// e2e mode (inside a synctest bubble): the manager is Start()ed; reports are
+// emitted as EvtPeerIdentificationCompleted on the event bus and travel through
+// eventHandler -> wch -> worker; disconnects are delivered through the
+// notifiee the manager registered with the network.
+func c17Exec(t *testing.T, out *verifh.Out, sc *c17Script, e2e bool) []int64 {
+	if !e2e {
+		return c17ExecIn(t, out, sc, false)
+	}
+	var line []int64
+	synctest.Test(t, func(t *testing.T) { line = c17ExecIn(t, out, sc, true) })
+	return line
+}
+
+func c17ExecIn(t *testing.T, out *verifh.Out, sc *c17Script, e2e bool) []int64 {
 	T := c17Build(t)
 	saved := ActivationThresh
 	ActivationThresh = sc.thresh
@@ -276,11 +306,42 @@ func c17Exec(t testing.TB, out *verifh.Out, sc *c17Script) []int64 {
 		listen[i] = ma.StringCast(a.full())
 	}
 	// like Network.ListenAddresses: a fresh slice on every call
-	o, err := newManagerWithListenAddrs(nil, func() []ma.Multiaddr {
+	var bus event.Bus
+	if e2e {
+		bus = eventbus.NewBus()
+	}
+	o, err := newManagerWithListenAddrs(bus, func() []ma.Multiaddr {
 		return append([]ma.Multiaddr(nil), listen...)
 	})
 	if err != nil {
 		t.Fatal(err)
+	}
+	doObserve := func(c *c17Conn, a ma.Multiaddr) { o.maybeRecordObservation(c, a) }
+	doDisconnect := func(c *c17Conn) { o.removeConn(c) }
+	if e2e {
+		nw := &c17Net{}
+		o.Start(nw)
+		if nw.nf == nil {
+			t.Fatal("c17: Start did not register a notifiee")
+		}
+		em, err := bus.Emitter(new(event.EvtPeerIdentificationCompleted))
+		if err != nil {
+			t.Fatal(err)
+		}
+		defer func() {
+			em.Close()
+			o.Close()
+		}()
+		doObserve = func(c *c17Conn, a ma.Multiaddr) {
+			if err := em.Emit(event.EvtPeerIdentificationCompleted{Conn: c, ObservedAddr: a}); err != nil {
+				t.Fatal(err)
+			}
+			synctest.Wait() // the worker has consumed the observation
+		}
+		doDisconnect = func(c *c17Conn) { nw.nf.Disconnected(nw, c) }
+		if out != nil {
+			out.Cover("cases.e2e_eventbus_and_notifiee")
+		}
 	}
 	line := []int64{17, int64(sc.thresh), int64(len(sc.listen))}
 	for _, a := range sc.listen {
@@ -328,7 +389,7 @@ func c17Exec(t testing.TB, out *verifh.Out, sc *c17Script) []int64 {
 			}
 			line = append(line, 1, int64(op.conn), b2i(a.lb), b2i(a.n64), b2i(a.relay), otw, fam, proto)
 			prev, had := o.connObservedTWAddrs[c]
-			o.maybeRecordObservation(c, ma.StringCast(a.full()))
+			doObserve(c, ma.StringCast(a.full()))
 			now, has := o.connObservedTWAddrs[c]
 			if out != nil {
 				switch {
@@ -376,10 +437,13 @@ func c17Exec(t testing.TB, out *verifh.Out, sc *c17Script) []int64 {
 			c.closed = true
 			_, had := o.connObservedTWAddrs[c]
 			nLocal := len(o.externalAddrs)
-			o.removeConn(c)
+			doDisconnect(c)
 			if out != nil {
 				if had {
 					out.Cover("disconnect.credited")
+					if e2e {
+						out.Cover("e2e.disconnect.credited")
+					}
 				} else {
 					out.Cover("disconnect.nothing_credited")
 				}
@@ -415,6 +479,9 @@ func c17Exec(t testing.TB, out *verifh.Out, sc *c17Script) []int64 {
 		if out != nil {
 			if len(all) > 0 {
 				out.Cover("addrs0.nonempty")
+				if e2e {
+					out.Cover("e2e.addrs0.nonempty")
+				}
 			}
 			// white-box view of the decision points of getTopExternalAddrs
 			for _, m := range o.externalAddrs {
@@ -568,6 +635,9 @@ func c17Gen(r *verifh.Rand, nops int, malformed bool) *c17Script {
 		if left == 0 {
 			phase = r.Intn(5)
 			left = 2 + r.Intn(nc)
+			if phase == 4 { // few connections go away at a time
+				left = 1 + r.Intn(3)
+			}
 		}
 		left--
 		c := r.Intn(nc)
@@ -639,14 +709,14 @@ func TestVerifC17(t *testing.T) {
 			nops = 60 + rr.Intn(120)
 		}
 		sc := c17Gen(rr, nops, i%7 == 6)
-		out.Case(c17Exec(t, out, sc))
+		out.Case(c17Exec(t, out, sc, i%8 == 3))
 		out.Cover("cases")
 	}
 }
 
 // ---- replay: re-execute a recorded case line on the code as it is now ---------
 
-func c17ScriptFromCase(t testing.TB, toks []int64) *c17Script {
+func c17ScriptFromCase(t *testing.T, toks []int64) *c17Script {
 	T := c17Build(t)
 	pos := 0
 	next := func() int64 {
@@ -759,5 +829,5 @@ func TestVerifC17Replay(t *testing.T) {
 		t.Fatal(err)
 	}
 	defer out.Close()
-	out.Case(c17Exec(t, nil, c17ScriptFromCase(t, toks)))
+	out.Case(c17Exec(t, nil, c17ScriptFromCase(t, toks), false))
 }
